@@ -24,6 +24,8 @@ ATOMS = ["<", ">", "&", '"', "'", "`", "<script>", "</script>", "<style>", "</st
          "&lt;", "&amp;", "&quot", "&#x27;", "&#60;", "color-box", "badge-pass", "card", "selector", "<img src=x>", "<b>", "<svg/onload=a>", "javascript:", ";", ":", "{", "}",
          "x", "Zq", " ", "\t", "\n", "=", "/", "\\", "]]>", "<![CDATA[", "<?", "%3C", "é", "日本", " ", "expression(", "url(", ")", "(", "'></div><script>a()</script>",
          '" onmouseover="a()', "' onmouseover='a()", "><", "</main>", "</html>", "<body onload=a>"]
+# Unicode compatibility forms that fold to markup metacharacters under NFKC/NFKD, and other characters a normaliser would alter
+ATOMS += ["＜", "＞", "＆", "＂", "＇", "﹤", "﹥", "﹠", "＜img src=x onerror=a＞", "﹤b﹥", "＆lt;", "＂ onmouseover=＂a()", "ﬁ", "①", "Å", "ｓｃｒｉｐｔ", "e\u0301", "\u212b", "＝", "／"]
 ATOMS_NODIGIT = [a for a in ATOMS if not any(ch.isdigit() for ch in a) and "." not in a]
 
 
